@@ -58,7 +58,7 @@ def c15_size_one_unity(w):
         return False
     if w['what'] == _RAISED:
         return k.get('exception') in ('ValueError', 'TypeError')
-    return w['what'] == _CELL and k.get('got_is_array') is True and k.get('block') in ('1d', '2d1')
+    return w['what'] in (_CELL, 'missing_treated_as_number') and k.get('got_is_array') is True and k.get('block') in ('1d', '2d1')
 
 
 @predicate
@@ -146,4 +146,56 @@ def c15_object_1d_all_missing_shortcut(w):
     if w['what'] == _CELL:
         return (k.get('row_kind') == 'O' and k.get('line_missing') in ('all', 'empty')
                 and (k.get('axis') == 1 or k.get('block') in ('1d', '2d1', '2dN')))
+    if w['what'] == 'frame_returned_but_line_raises':   # min/max of an empty line must raise; the shortcut answers nan
+        return k.get('row_kind') == 'O' and k.get('line_missing') == 'empty' and k.get('fn') in ('min', 'max') and k.get('block') == '1d'
     return False
+
+
+@predicate
+def c15_object_minmax_nan_not_propagated(w):
+    """min / max with skipna=False over an object array holding NaN beside numbers: NumPy compares the Python objects,
+    NaN loses every comparison and a present value is returned (Series and Frame alike; also float blocks cast to an
+    object row dtype in multi-block frames)."""
+    k = w['klass']
+    if not (k.get('fn') in ('min', 'max') and k.get('skipna') is False and k.get('line_missing') == 'some'):
+        return False
+    if w['what'] in ('series_path_differs_from_model', 'missing_treated_as_number'):
+        return k.get('line_kind') == 'O' and k.get('got_is_array') is not True
+    return (w['what'] == _CELL and k.get('row_kind') == 'O' and k.get('line_kind') in ('f', 'c') and k.get('axis') == 0
+            and k.get('layout') == 'multi')
+
+
+@predicate
+def c15_out_buffer_object_row_dtype_cast(w):
+    """min / max on axis 0 of a multi-block frame whose row dtype is object (bool + float, datetime + int, ...): float /
+    datetime blocks are cast to object before reducing, NaN / NaT become objects NumPy's nan-aware reductions cannot
+    handle -> TypeError / AttributeError for the whole frame."""
+    k = w['klass']
+    return (w['what'] == _RAISED and k.get('fn') in ('min', 'max') and k.get('axis') == 0 and k.get('layout') == 'multi'
+            and k.get('row_kind') == 'O' and any(c in (k.get('line_kinds') or '') for c in 'fcMm')
+            and k.get('lines_missing') in ('some', 'some_line_all') and k.get('exception') in ('TypeError', 'AttributeError'))
+
+
+@predicate
+def c15_object_cumulative_none(w):
+    """cumsum / cumprod with skipna=True over object cells holding None: the Series path drops the None cells before
+    accumulating (length no longer matches the index), the Frame path hands None to np.nancumsum/np.nancumprod -> TypeError."""
+    k = w['klass']
+    if not (k.get('fn') in ('cumsum', 'cumprod') and k.get('skipna') is True):
+        return False
+    if w['what'] == 'series_path_differs_from_model':
+        return k.get('line_kind') == 'O' and k.get('line_missing') in ('some', 'all')
+    if w['what'] == _RAISED:
+        return k.get('row_kind') == 'O' and k.get('lines_missing') in ('some', 'some_line_all') and k.get('exception') == 'TypeError'
+    return w['what'] == _CELL and k.get('line_kind') == 'O' and k.get('line_missing') in ('some', 'all') and k.get('series_path_ok') is False
+
+
+@predicate
+def c15_outside_domain_layout_dependent(w, fns, **conds):
+    """outside the functions' domain, whether the call raises depends on the layout, through the mechanisms already
+    listed: blocks cast to the float64 out dtype (mean/median/std/var of datetime / str / object columns give numbers in
+    multi-block frames and raise in the unified one), size_one_unity, 0-row logical results."""
+    k = w['klass']
+    if w['what'] != 'layout_dependent_outcome_kind' or k.get('in_domain') is not False or k.get('fn') not in fns:
+        return False
+    return all((k.get(a) in b) if isinstance(b, list) else (k.get(a) == b) for a, b in conds.items())
